@@ -49,6 +49,9 @@ type Session struct {
 	// that is uploaded must still be in order and faithful, and the server must survive)
 	Fault string `json:"fault,omitempty"`
 	Snr   int    `json:"snr,omitempty"`
+	// Chunked: low-latency session (ato = 3/4 segment, chunkdur = 1/4 segment): every segment is uploaded with chunked
+	// transfer encoding while it is produced in real time (so only short segments are drawn)
+	Chunked bool `json:"chunked,omitempty"`
 }
 
 type Op struct {
@@ -63,9 +66,17 @@ type Case struct {
 }
 
 func genCase(t *rapid.T) (Case, *env.Env) {
-	tg := gen.Target(t, assetgen.Opts{Audio: []string{"", "aac"}, Uniform: true, MinFrames: 25, MaxFrames: 100, Forms: []string{"timeline", "number"},
-		Clocks: []assetgen.Clock{{1000, 40}, {25000, 1000}, {90000, 3600}, {30000, 1001}, {60000, 1001}}}, 60,
-		[]string{"testpic_2s", "testpic_2s", "testpic_8s", "testpic_6s", "WAVE/vectors/cfhd_sets/14.985_29.97_59.94/t1/2022-10-17"})
+	var tg env.Target
+	lowLatency := rapid.IntRange(0, 4).Draw(t, "low-latency-case") == 0
+	if lowLatency {
+		// short uniform segments: a chunked session is produced in real time
+		tg = gen.Target(t, assetgen.Opts{Audio: []string{"", "aac"}, Uniform: true, MinFrames: 25, MaxFrames: 40, Forms: []string{"timeline", "number"},
+			Clocks: []assetgen.Clock{{1000, 40}, {25000, 1000}, {90000, 3600}}}, 0, nil)
+	} else {
+		tg = gen.Target(t, assetgen.Opts{Audio: []string{"", "aac"}, Uniform: true, MinFrames: 25, MaxFrames: 100, Forms: []string{"timeline", "number"},
+			Clocks: []assetgen.Clock{{1000, 40}, {25000, 1000}, {90000, 3600}, {30000, 1001}, {60000, 1001}}}, 60,
+			[]string{"testpic_2s", "testpic_2s", "testpic_8s", "testpic_6s", "WAVE/vectors/cfhd_sets/14.985_29.97_59.94/t1/2022-10-17"})
+	}
 	e, err := env.Get(tg)
 	if err != nil {
 		t.Fatalf("HARNESS: %v", err)
@@ -119,6 +130,19 @@ func genCase(t *rapid.T) (Case, *env.Env) {
 		if s.Fault == "statuscode" {
 			s.Streams, s.Duration = false, 0 // uploads are matched by the number/time in their path
 		}
+		uniform := true
+		for _, sg := range e.Asset.Ref.Segs {
+			if sg.End-sg.Start != e.Asset.Ref.Segs[0].End-e.Asset.Ref.Segs[0].Start {
+				uniform = false
+			}
+		}
+		if uniform && sameGrid && segMS >= 1000 && segMS <= 1600 && segMS%4 == 0 && lowLatency && rapid.IntRange(0, 2).Draw(t, "chunked?") != 0 {
+			s.Chunked = true
+			s.Subs = ""
+			if rapid.IntRange(0, 2).Draw(t, "chunked-fault") == 0 {
+				s.Fault, s.Streams, s.Duration = "statuscode", false, 0
+			}
+		}
 		c.Sessions = append(c.Sessions, s)
 	}
 	n := rapid.IntRange(3, 14).Draw(t, "nops")
@@ -134,6 +158,8 @@ type put struct {
 	ingest string
 	auth   string
 	body   []byte
+	// aborted: the request body ended with an error (the sender gave the upload up, e.g. session deleted mid-segment)
+	aborted bool
 }
 
 type recv struct {
@@ -147,13 +173,13 @@ type recv struct {
 }
 
 func (r *recv) ServeHTTP(w http.ResponseWriter, req *http.Request) {
-	body, _ := io.ReadAll(req.Body)
+	body, rerr := io.ReadAll(req.Body)
 	if r.slow {
 		time.Sleep(r.delay)
 	}
 	isInit := bytes.Contains(body[:min(len(body), 64)], []byte("ftyp"))
 	r.mu.Lock()
-	r.puts = append(r.puts, put{path: req.URL.Path, ctype: req.Header.Get("Content-Type"), ingest: req.Header.Get("DASH-IF-Ingest"), auth: req.Header.Get("Authorization"), body: body})
+	r.puts = append(r.puts, put{path: req.URL.Path, ctype: req.Header.Get("Content-Type"), ingest: req.Header.Get("DASH-IF-Ingest"), auth: req.Header.Get("Authorization"), body: body, aborted: rerr != nil})
 	code := http.StatusOK
 	if isInit {
 		r.nInit++
@@ -274,6 +300,11 @@ func checkCase(c Case, e *env.Env) (*hx.Violation, info) {
 		x.refParts = x.parts
 		if s.Subs != "" {
 			x.refParts = append(append([]string{}, x.parts...), "timesubs"+s.Subs+"_en")
+		}
+		if s.Chunked {
+			ll := []string{"ato_" + refmodel.FormatMS(segMS*3/4), "chunkdur_" + refmodel.FormatMS(segMS/4)}
+			x.parts = append(x.parts, ll...)
+			x.refParts = append(append([]string{}, x.refParts...), ll...)
 		}
 		if s.Fault == "statuscode" {
 			x.parts = append(x.parts, fmt.Sprintf("statuscode_[{cycle:%d,rsq:1,code:404}]", max(2, (2*segMS+999)/1000)))
@@ -447,6 +478,13 @@ func checkCase(c Case, e *env.Env) (*hx.Violation, info) {
 				n := x.first + next
 				next++
 				name := nameOf(n)
+				if p.aborted {
+					// an upload the sender gave up: only the newest one of a deleted session may look like that
+					if x.gone && k == len(ps)-2 {
+						continue
+					}
+					return hx.V("upload-aborted", "session %s rep %s: upload %s was aborted by the sender after %d bytes (session deleted=%v, upload %d of %d)", x.id, r.id, p.path, len(p.body), x.gone, k+1, len(ps)-1)
+				}
 				if !x.s.Streams {
 					base := strings.TrimSuffix(name[strings.LastIndex(name, "/")+1:], ".m4s")
 					// the path carries the number (or time) of the segment
@@ -597,6 +635,12 @@ func TestC16(t *testing.T) {
 		for _, s := range c.Sessions {
 			if s.Snr != 0 {
 				cls = append(cls, "snr!=0")
+				break
+			}
+		}
+		for _, s := range c.Sessions {
+			if s.Chunked {
+				cls = append(cls, "chunked")
 				break
 			}
 		}
